@@ -156,6 +156,20 @@ def get_function(qualname: str) -> FnSource:
     return fs
 
 
+def real_defaults(qualname: str) -> dict:
+    """The constant default values of the parameters of a real function, read from its `def` on every run."""
+    node = get_function(qualname).node
+    a = node.args
+    out = {}
+    pos = a.posonlyargs + a.args
+    for p, d in zip(pos[len(pos) - len(a.defaults):], a.defaults):
+        if isinstance(d, ast.Constant):
+            out[p.arg] = d.value
+        elif isinstance(d, ast.UnaryOp) and isinstance(d.op, ast.USub) and isinstance(d.operand, ast.Constant):
+            out[p.arg] = -d.operand.value
+    return out
+
+
 # ---- renamed locals -------------------------------------------------------------------------------------------------
 # Contracts name local variables of the real functions.  A refactoring that only renames locals would make every such
 # clause dangle.  contracts/_shapes.json (written by tools/gen_shapes.py from the tree the contracts were written
